@@ -33,7 +33,14 @@ def pick_qty(rng, base_value, b, sig=2, any_prefix=False, down=False):
     p = rng.choice(ok or [''])
     if p == 'u' and rng.random() < 0.3:
         p = 'µ'       # the micro sign is the other spelling of the same prefix
-    return {'v': dec(base_value / float(PFX[p][1]), sig, down), 'p': p, 'b': b}
+    v = dec(base_value / float(PFX[p][1]), sig, down)
+    r = rng.random()
+    if r < 0.06 and float(v) != 0:
+        from decimal import Decimal
+        v = format(Decimal(v), 'E' if r < 0.03 else 'e')      # the same number in exponent notation ('2.5E+1')
+    elif r < 0.09 and not v.startswith('-'):
+        v = '+' + v                                             # an explicit sign
+    return {'v': v, 'p': p, 'b': b}
 
 
 class Gen:
@@ -745,5 +752,45 @@ def twin_lot_cases(seed, kind='transfer'):
                       'name': g.name(), 'osrc': g.fresh(), 'out': g.fresh(), 'solvent': 1, 'expect': 'feasible'}
                 if g.emit(op, 'lot:solfrom-mass')['ok']:
                     stocks[lot] = op['osrc']
+        out.append(g)
+    return out
+
+
+def big_plate_cases(seed):
+    """directed: a 96-well plate (8 x 12) and a 1 x 12 strip: whole-plate dispensing, a row into a row, a column pooled, a stepped
+    rectangle, removal and fill_to on regions -- sizes the random histories (up to about 4 x 4) never reach"""
+    import random
+    q = lambda v, p, b: {'v': v, 'p': p, 'b': b}
+    out = []
+    for i, (rows, cols) in enumerate(((8, 12), (1, 12))):
+        g = Gen(random.Random(seed * 2003 + i), kinds=('Liquid', 'Solid', 'Liquid'))
+        a = g.new_container(nsub=3, scale=20.0)
+        pl = g.new_plate(rows=rows, cols=cols, max_ul=300)
+        if a is None or pl is None:
+            continue
+        allr = {'rect': [list(range(rows)), list(range(cols))]}
+        op = {'op': 'transfer', 'src': {'c': a}, 'dst': {'p': pl, 'r': allr}, 'q': q('100', 'u', 'L'), 'osrc': g.fresh(), 'odst': g.fresh()}
+        if not g.emit(op, 'big:c->plate')['ok']:
+            out.append(g)
+            continue
+        a, pl = op['osrc'], op['odst']
+        lastr = rows - 1
+        steps = [({'p': pl, 'r': {'rect': [[0], list(range(cols))]}}, {'p': pl, 'r': {'rect': [[lastr], list(range(cols))]}}) if rows > 1 else None]
+        if steps[0]:
+            op = {'op': 'transfer', 'src': steps[0][0], 'dst': steps[0][1], 'q': q('15', 'u', 'L'), 'osrc': g.fresh(), 'odst': g.fresh()}
+            if g.emit(op, 'big:row->row')['ok']:
+                pl = op['odst']
+        d = g.fresh()
+        g.emit({'op': 'newc', 'out': d, 'name': g.name(), 'init': []}, 'big:tube')
+        op = {'op': 'transfer', 'src': {'p': pl, 'r': {'rect': [list(range(rows)), [cols - 1]]}}, 'dst': {'c': d}, 'q': q('20', 'u', 'L'), 'osrc': g.fresh(), 'odst': g.fresh()}
+        if g.emit(op, 'big:column->c')['ok']:
+            pl, d = op['osrc'], op['odst']
+        op = {'op': 'remove', 't': {'p': pl, 'r': {'rect': [list(range(0, rows, 2)), list(range(1, cols, 3))]}}, 'w': {'k': 'Liquid'}, 'out': g.fresh()}
+        if g.emit(op, 'big:remove-stepped')['ok']:
+            pl = op['out']
+        solvent = g.sub(kind=('Liquid',))
+        op = {'op': 'fill', 't': {'p': pl, 'r': {'rect': [[0], list(range(0, cols, 2))]}}, 'solvent': solvent['id'], 'q': q('250', 'u', 'L'), 'out': g.fresh()}
+        if g.emit(op, 'big:fill-row')['ok']:
+            pl = op['out']
         out.append(g)
     return out
